@@ -659,6 +659,32 @@ theorem unitsFrom_eq (cfg : W.Cfg) (us₁ us₂ : List W.Unit) (p : W.Pos)
   rw [hc, List.length_append, Nat.add_sub_cancel]
   exact List.drop_left
 
+theorem serve_eq (cfg : W.Cfg) (h : W.History) (p : W.Pos) :
+    W.serve cfg h p = fakeRotBytes cfg 0 p.offset p.file ::
+      (match W.fromPos (W.layout cfg h) p with
+        | e :: _ => if e.tag == .fileHead then [] else [(W.fdeEvent cfg 4 (some 0)).1]
+        | [] => [(W.fdeEvent cfg 4 (some 0)).1]) ++ (W.fromPos (W.layout cfg h) p).map (·.bytes) := rfl
+
+theorem serve_nil (cfg : W.Cfg) (h : W.History) (p : W.Pos) (hfp : W.fromPos (W.layout cfg h) p = []) :
+    W.serve cfg h p = fakeRotBytes cfg 0 p.offset p.file :: (W.fdeEvent cfg 4 (some 0)).1 :: ([] : List W.Laid).map (·.bytes) := by
+  rw [serve_eq, hfp]; rfl
+
+theorem serve_unit (cfg : W.Cfg) (h : W.History) (p : W.Pos) (e : W.Laid) (rest : List W.Laid)
+    (hfp : W.fromPos (W.layout cfg h) p = e :: rest) (hnf : e.tag ≠ .fileHead) :
+    W.serve cfg h p = fakeRotBytes cfg 0 p.offset p.file :: (W.fdeEvent cfg 4 (some 0)).1 :: (e :: rest).map (·.bytes) := by
+  have hne : (e.tag == W.Tag.fileHead) = false := by
+    cases hb : (e.tag == W.Tag.fileHead) with
+    | false => rfl
+    | true => exact absurd ((tag_beq_fileHead _).mp hb) hnf
+  rw [serve_eq, hfp]
+  simp only [hne, Bool.false_eq_true, if_false, List.cons_append, List.nil_append]
+
+theorem serve_fileHead (cfg : W.Cfg) (h : W.History) (p : W.Pos) (e : W.Laid) (rest : List W.Laid)
+    (hfp : W.fromPos (W.layout cfg h) p = e :: rest) (hfh : e.tag = .fileHead) :
+    W.serve cfg h p = fakeRotBytes cfg 0 p.offset p.file :: e.bytes :: rest.map (·.bytes) := by
+  rw [serve_eq, hfp]
+  simp only [(tag_beq_fileHead _).mpr hfh, if_true, List.cons_append, List.nil_append, List.map_cons]
+
 /-- byte-level fidelity for a replica started at p, whenever the master starts serving at a boundary event -/
 theorem resume_lands (cfg : W.Cfg) (env : Env) (h : W.History) (p : W.Pos) (hwf : WFFrom cfg h p)
     (hl : Lands cfg h p) (hm : MapperAgrees env (unitsFrom cfg h p)) :
@@ -670,12 +696,11 @@ theorem resume_lands (cfg : W.Cfg) (env : Env) (h : W.History) (p : W.Pos) (hwf 
   have hreal := C01_classify_fde env (PState.init (posOf p)) cfg 4 none (by decide) (by simp)
   obtain ⟨hlen, hu, ht, ha, hoff⟩ := hwf
   unfold Lands at hl
-  unfold W.serve W.expected W.endPos
-  cases hfp : W.fromPos (W.layout cfg h) p with
-  | nil =>
+  unfold W.expected W.endPos
+  rcases hfp : W.fromPos (W.layout cfg h) p with _ | ⟨e, rest⟩
+  · rw [serve_nil cfg h p hfp]
     exact resume_prefix cfg env p _ [] hlen hart (good_nil env _ p rfl)
-  | cons e rest =>
-    rw [hfp] at hl hoff
+  · rw [hfp] at hl hoff
     have hfile := fromPos_head_file _ _ _ _ hfp
     obtain ⟨pre, hpre⟩ : ∃ pre, W.layout cfg h = pre ++ e :: rest := by
       have := List.dropWhile_suffix (l := W.layout cfg h) (fun e : W.Laid => !(e.file == p.file && e.start ≥ p.offset))
@@ -689,11 +714,7 @@ theorem resume_lands (cfg : W.Cfg) (env : Env) (h : W.History) (p : W.Pos) (hwf 
         apply unitsFrom_eq
         rw [hfp, hlay, countP_units]
       rw [hus] at hu ht ha hm
-      have hne : (e.tag == W.Tag.fileHead) = false := by
-        cases hb : (e.tag == W.Tag.fileHead) with
-        | false => rfl
-        | true => exact absurd ((tag_beq_fileHead _).mp hb) hnf
-      simp only [hne, Bool.false_eq_true, if_false, List.cons_append, List.nil_append]
+      rw [serve_unit cfg _ p e rest hfp hnf]
       rw [hfile] at hlay
       rw [hlay] at hoff ⊢
       exact resume_prefix cfg env p _ _ hlen hart (good_units cfg env us₂ p _ hu ht ha hm hoff)
@@ -706,8 +727,10 @@ theorem resume_lands (cfg : W.Cfg) (env : Env) (h : W.History) (p : W.Pos) (hwf 
       have htag : e.tag = .fileHead := by rw [he]; rfl
       have hbytes : e.bytes = (W.fdeEvent cfg 4 none).1 := by rw [he]; rfl
       have hb2 := (bnd_cons hoff).2
-      simp only [htag, (tag_beq_fileHead _).mpr, if_true, List.nil_append, List.map_cons, hbytes,
-        W.expectedAux, W.endPosAux]
+      rw [serve_fileHead cfg _ p e rest hfp htag, hbytes]
+      have hx : W.expectedAux (e :: rest) p = W.expectedAux rest p := by simp [W.expectedAux, htag]
+      have hy : W.endPosAux (e :: rest) p = W.endPosAux rest p := by simp [W.endPosAux, htag]
+      rw [hx, hy]
       rw [hfile] at hlay
       rw [hlay] at hb2 ⊢
       exact resume_prefix cfg env p _ _ hlen hreal (good_units cfg env us₂ p _ hu ht ha hm hb2)
